@@ -21,6 +21,16 @@ def normalise(events):
     return out
 
 
+NOISE = {"PollCheck", "Healthy", "SWHeader", "SWWrite", "SWClose", "SerStart", "SerDone", "Attempt", "AttemptStatus",
+         "AttemptErr", "BrsRead", "BrsSeek", "Backoff", "ListFail", "HealthProbe", "WServed", "WClosed", "WForward"}
+
+
+def project(events, drop):
+    """Projection of a trace onto a module's alphabet: events that the trace specification treats
+    as pure stuttering are removed before validation (keeps TLC's input small)."""
+    return [e for e in events if e.get("ev") not in drop]
+
+
 def drive(ctx, driver, mode="", cases=None, name=None, env=None, timeout=1500, vdrive="vdrive"):
     """Run one driver; returns (events, result)."""
     name = name or (driver + ("-" + mode if mode else ""))
@@ -98,8 +108,25 @@ def relay_sig(seg, idx, inv):
     return "%s:%s" % (base, ev.get("ev"))
 
 
+def uniquify_pollers(events):
+    """The proxy hook names a list call by the address of its request context, which the Go
+    allocator may reuse for a later call; give every ListStart its own incarnation number (an
+    address cannot be reused while its call is still running, so this renaming is unambiguous)."""
+    inc = {}
+    out = []
+    for e in events:
+        if "p" in e and e.get("ev") in ("ListStart", "Recv", "ListReply"):
+            key = (e.get("pid"), e["p"])
+            if e["ev"] == "ListStart":
+                inc[key] = inc.get(key, 0) + 1
+            e = dict(e)
+            e["p"] = "%s#%d" % (e["p"], inc.get(key, 0))
+        out.append(e)
+    return out
+
+
 def relay_validate(ctx, events):
-    segs = split_segments(events)
+    segs = split_segments(uniquify_pollers(project(events, NOISE - {"WForward"})))
     fails = validate_segments(ctx, "RelayTrace", "RelayTrace.cfg", segs)
     for seg, idx, out, inv in fails:
         sig = relay_sig(seg, idx, inv)
@@ -186,7 +213,98 @@ def c01(ctx):
     relay_validate(ctx, events)
 
 
-CHECKS = {"C01": c01}
+def tlc_generate(ctx, module, cfg, outname):
+    """Run a generator module: TLC evaluates the case set from the specification's own operators
+    and serialises it (JsonSerialize in an ASSUME)."""
+    out = os.path.join(ctx.scratch, outname)
+    r = tlc(ctx, module, cfg, workers=1, env={"VERIF_OUT": out}, timeout=900)
+    if r.exit != 0 or not os.path.exists(out):
+        save_debug(ctx, "tlc_%s.out" % cfg, r.out)
+        raise Inconclusive("case generation %s/%s failed (exit %d)" % (module, cfg, r.exit))
+    return out
+
+
+def dedup_mutations():
+    def dup_backend(seg):
+        for i, e in enumerate(seg):
+            if e.get("ev") == "BackendHandle":
+                seg.insert(i + 1, dict(e))
+                return True
+        return False
+
+    def drop_post(seg):
+        for i, e in enumerate(seg):
+            if e.get("ev") == "FakePost":
+                del seg[i]
+                return True
+        return False
+
+    def spawn_on_hit(seg):
+        seen = set()
+        for i, e in enumerate(seg):
+            if e.get("ev") == "Dedup":
+                if e["id"] in seen and (i + 1 >= len(seg) or seg[i + 1].get("ev") != "Spawn"):
+                    seg.insert(i + 1, {"ev": "Spawn", "id": e["id"], "src": "agent"})
+                    return True
+                seen.add(e["id"])
+        return False
+    return [("duplicate-backend-call", dup_backend), ("drop-upload", drop_post), ("spawn-on-lru-hit", spawn_on_hit)]
+
+
+def c04(ctx):
+    import random
+    ctx.rule = ("cases = pending-list histories enumerated by TLC from AgentDedup's environment action (repeats, permutations, overlapping "
+                "subsets; <=3 replies of <=3 IDs over 3 IDs) replayed against the real agent binary through a scripted fake proxy, window-edge "
+                "scenarios with 999/1000 distinct IDs, and bursts of clients against the real proxy with foreign pollers; distinct = distinct history shapes")
+    ctx.assumptions = ["side condition of the property: at most 1000 distinct IDs outstanding (window scenarios beyond it are information only)",
+                       "timing of fetch/upload relative to later list replies is varied by seeded delays, not enumerated on the real code (TLC enumerates it in the model)"]
+    thorough = ctx.tier == "thorough"
+    tlc_must_hold(ctx, "AgentDedup", "AgentDedup_MC.cfg")
+    if thorough:
+        tlc_must_hold(ctx, "AgentDedup", "AgentDedup_MCbig.cfg", timeout=1500)
+    tlc_must_fail(ctx, "AgentDedup", "AgentDedup_Attack_NoDedup.cfg")
+    tlc_must_fail(ctx, "AgentDedup", "AgentDedup_Attack_Window.cfg")
+    tlc_must_hold(ctx, "Relay", "Relay_MC.cfg")
+    tlc_must_fail(ctx, "Relay", "Relay_Attack_IdCollision.cfg")
+    gen = tlc_generate(ctx, "AgentDedupGen", "AgentDedupGen.cfg", "dedup_histories.json")
+    allh = json.load(open(gen))["histories"]
+    rnd = random.Random(ctx.seed)
+    n = 3000 if thorough else 160
+    sample = rnd.sample(allh, min(n, len(allh)))
+    # always include the shapes that matter most: immediate repeat, repeat across replies, permutation
+    must = [[["a", "a"]], [["a"], ["a"]], [["a", "b"], ["b", "a"]], [["a", "b", "a"], ["a"]], [["a"], ["b"], ["a"]]]
+    cases = {"histories": must + sample, "window": [999, 1000] + ([1001] if thorough else [])}
+    cpath = os.path.join(ctx.scratch, "dedup_cases.json")
+    json.dump(cases, open(cpath, "w"))
+    ctx.extra["histories_enumerated_by_tlc"] = len(allh)
+    ctx.extra["histories_replayed"] = len(cases["histories"])
+    build_relay_bins(ctx)
+    go_build_harness(ctx)
+    events, _ = drive(ctx, "dedup", cases=cpath, timeout=3000)
+    segs = split_segments(project(events, NOISE))
+    info = [s for s in segs if s[0].get("sig") == "dedup-window-1001"]
+    segs = [s for s in segs if s[0].get("sig") != "dedup-window-1001"]
+    fails = validate_segments(ctx, "AgentDedupTrace", "AgentDedupTrace.cfg", segs, batch=80)
+    for seg, idx, out, inv in fails:
+        ev = seg[min(max(idx, 0), len(seg) - 1)]
+        sig = "%s:%s" % (seg[0].get("sig"), inv or ev.get("ev"))
+        hist = [e.get("ids") for e in seg if e.get("ev") == "FakeList"]
+        what = "list history %s against the real agent: event #%d %s not explained by AgentDedup%s" % (
+            json.dumps(hist)[:300], idx + 1, json.dumps(ev, sort_keys=True)[:200], (" (invariant %s)" % inv) if inv else "")
+        report_failure(ctx, sig, what, seg=seg, tlc_out=out[-5000:])
+    if info:
+        f2 = validate_segments(ctx, "AgentDedupTrace", "AgentDedupTrace.cfg", info)
+        ctx.traces_validated -= (len(info) - len(f2))
+        ctx.notes.append("information only (outside the property's side condition): with 1001 distinct IDs the first ID %s forwarded again after eviction" % ("WAS" if f2 else "was NOT"))
+    if not fails:
+        multi = [s for s in segs if sum(1 for e in s if e.get("ev") == "Dedup") >= 3]
+        selftest(ctx, "AgentDedupTrace", "AgentDedupTrace.cfg", (multi or segs)[0], dedup_mutations())
+    # (ii) stand-alone proxy: each ID goes to exactly one list reply, across concurrent pollers
+    events, _ = drive(ctx, "relay", mode="pollers")
+    relay_validate(ctx, events)
+
+
+CHECKS = {"C01": c01, "C04": c04}
 
 if __name__ == "__main__":
     pid = sys.argv[1]
